@@ -64,7 +64,7 @@ func (e *Engine) strOf(st *State, arr, off, n T) T {
 	if e.quant > 0 {
 		return r
 	}
-	r = e.name("str", r)
+	r = e.nameAlways("str", r)
 	e.assume(st, Eq(e.slen(r), n), "string(bytes) length")
 	if nv, ok := constInt(n); ok && nv <= 128 {
 		// constant length: ground content facts (keeps key reasoning quantifier-free)
@@ -911,11 +911,15 @@ func (e *Engine) callContract(st *State, fc *FuncContract, args []Value, call *a
 			}
 			e.havocHeap(st, "call")
 		} else {
+			// all targets are named in the pre-state, then forgotten
+			var targets []Value
 			for _, m := range fc.modifies {
 				e.envStack = append(e.envStack, env)
-				v := e.evalClauseValue(st, m)
+				targets = append(targets, e.evalClauseValue(st, m))
 				e.envStack = e.envStack[:len(e.envStack)-1]
-				e.havocTarget(st, v, m.info.TypeOf(m.expr), m)
+			}
+			for i, m := range fc.modifies {
+				e.havocTarget(st, targets[i], m.info.TypeOf(m.expr), m)
 			}
 		}
 	}
